@@ -407,7 +407,9 @@ class LimitsWorld(World):
     @staticmethod
     def symptom(a, o, prev):
         act = a.get('act')
-        if act == 'limits' and a['a'] > a['b'] and (o['last'] == 'ok' or (o['lo'], o['hi']) == (a['a'], a['b'])):
+        assigned = 'assign' in (a.get('how'), a.get('via'))
+        if (act == 'limits' and a['a'] > a['b'] and not assigned
+                and (o['last'] == 'ok' or (o['lo'], o['hi']) == (a['a'], a['b']))):
             return 'inverted tuple accepted'
         if act == 'p' and o['last'] == 'ok' and prev and not prev['lo'] <= a['v'] <= prev['hi']:
             return 'accepted outside limits'
@@ -510,6 +512,11 @@ class ControlWorld(World):
         return {'n': init['n']}
 
 
+# one observed field and how to falsify it (binding self-test of the trace specifications)
+CORRUPT = {'LinkedStruct': ('str', lambda v: {k: (x + 1) % 10 for k, x in v.items()}),
+           'LinkedFloatEnum': ('val', lambda v: v + 1),
+           'LinkedLimits': ('last', lambda v: 'ok' if v == 'refused' else 'refused'),
+           'LinkedControl': ('cby', lambda v: 'c1' if v != 'c1' else 'self')}
 WORLDS = {'LinkedStruct': StructWorld, 'LinkedFloatEnum': FloatEnumWorld, 'LinkedLimits': LimitsWorld,
           'LinkedControl': ControlWorld}
 ASSIGN_ONLY = {'as', 'am', 'ai', 'upd'}          # operations that exist only on the driver side
@@ -522,6 +529,10 @@ def _vias(sub, actions, variant, rnd):
     for a in actions:
         if a['act'] in ASSIGN_ONLY:
             res.append('driver')
+        elif a.get('how') == 'assign':
+            res.append('assign')
+        elif a.get('how') == 'write':
+            res.append(('client', 'driver')[mode] if mode < 2 else rnd.choice(('client', 'driver')))
         elif sub == 'LinkedLimits' and a['act'] != 'p':
             res.append(('client', 'driver', 'assign')[mode] if mode < 3 else rnd.choice(('client', 'driver', 'assign')))
         else:
@@ -737,10 +748,11 @@ def run(chk):
     pool = ThreadPoolExecutor(12)
     t0 = time.time()
     timing = chk.notes.setdefault('timing_s', {})
-    list(pool.map(sany, [pre + m for m in SUBS for pre in ('', 'Gen_', 'Trace_')]))
+    list(pool.map(sany, ['Linked'] + [pre + m for m in SUBS for pre in ('', 'Gen_', 'Trace_')]))
     timing['sany'] = round(time.time() - t0, 1)
     # 1 design check + 2 behaviour emission, all TLC runs side by side
     mcs = {m: pool.submit(model_check, m, f'MC_{m}_{tier}.cfg', timeout=600, workers=2) for m in SUBS}
+    mcs['Linked'] = pool.submit(model_check, 'Linked', 'MC_Linked.cfg', timeout=300, workers=2)   # composition root
     cfgs = [(m, f'Gen_{m}_{c}.cfg') for c in (('quick',) if quick else ('thorough', 'thorough_wide')) for m in SUBS]
     gens = [(m, cfg, pool.submit(run_tlc, 'Gen_' + m, cfg, workers=1, timeout=1100, heap='3g' if quick else '5g'))
             for m, cfg in cfgs]
@@ -749,14 +761,18 @@ def run(chk):
     targs = [(m, chk.seed * 7919 + i * 4 + k, ln) for k, m in enumerate(SUBS) for i in range(ntr)]
     traces = pool_map(_random_trace, targs)
     timing['record'] = round(time.time() - t0, 1)
-    for m in SUBS:
+    for m in mcs:
         chk.add_tlc(mcs[m].result())
     timing['mc'] = round(time.time() - t0, 1)
     futs = {}
     for m in SUBS:     # validated by TLC while the replays run
         sel = [i for i, a in enumerate(targs) if a[0] == m]
-        futs[m] = (sel, pool.submit(validate_traces, 'Trace_' + m, [traces[i] for i in sel], f'Trace_{m}.cfg',
-                                    timeout=900))
+        batch = [traces[i] for i in sel]
+        # binding self-test: the same trace with one observed field falsified must be rejected
+        bad = json.loads(json.dumps(batch[0]))
+        field, wrong = CORRUPT[m]
+        bad[1][field] = wrong(bad[1][field])
+        futs[m] = (sel, pool.submit(validate_traces, 'Trace_' + m, batch + [bad], f'Trace_{m}.cfg', timeout=900))
     for m, cfg, fut in gens:
         r = fut.result()
         if r.violated or not r.ok:
@@ -786,6 +802,9 @@ def run(chk):
     for m in SUBS:
         sel, fut = futs[m]
         verdicts, st, tr = fut.result()
+        if verdicts.pop(len(sel)) is None:
+            raise MachineryError(f'Trace_{m} accepted a falsified trace')
+        chk.notes.setdefault('binding_selftest', []).append(f'Trace_{m}: falsified {CORRUPT[m][0]} rejected')
         chk.states += st
         chk.transitions += tr
         for k, v in verdicts.items():
